@@ -9,6 +9,17 @@
 //!    RC4 (same length, differs if >= 16 bytes) or AES-CBC (16 byte IV + PKCS#5 padded length, differs);
 //!  * a wrong password must give Err and leave objects and trailer equal to their values before the call;
 //!  * after save + load the document is already decrypted iff the user or the owner password is the empty string.
+//!
+//! Obligation names carry the input class the property's quantifier names, so that different causes do not share a name:
+//!  `mem-` / `reload-` (in memory / through save_to + load_mem), `-user` / `-owner` (which password), `-over127` (a password
+//!  longer than the 127-byte limit of revisions 5/6), `-nonlatin` (the wrong password differs from a real one only by
+//!  characters PDFDocEncoding cannot represent, revisions 2-4), `stream-dict-string-encrypted` (ISO: strings in stream
+//!  dictionaries are strings of the file; F19), `metadata-dict-string-encrypted` (only the Metadata *stream* is exempt).
+//!  Panics are caught per call (`catch`, with a silent hook installed once for the whole run because cases run on rayon
+//!  threads) and reported as `no-panic`.
+//!
+//! Debugging aids: `C05_STATS=1` prints failing-case counts per (obligation, handler, password pair) on stderr (no effect on
+//! the report); `C05_ONLY=V4` restricts the run - and therefore the report - to one handler kind; never set by the driver.
 #![allow(dead_code, unused_imports, deprecated)]
 use crate::c03::{obj_from_json, obj_json};
 use crate::common::*;
@@ -498,7 +509,9 @@ fn expect_decrypts(h: &Handler, orig: &Document, enc: &Document, enc_id: Option<
     let mut d = enc.clone();
     match catch(|| d.decrypt(pw)) {
         Err(p) => push(f, "no-panic", format!("{}: decrypt panicked: {}", tag, p)),
-        Ok(Err(e)) => push(f, &format!("{}-ok", tag), format!("decrypt with the correct password failed: {}", e)),
+        // same obligation as a wrong result: with a wrongly derived key the library answers Err (bad AES padding) or Ok with garbage
+        // depending on random IV bytes, the case must fail under one stable name
+        Ok(Err(e)) => push(f, &format!("{}-restores", tag), format!("decrypt with the correct password failed: {}", e)),
         Ok(Ok(())) => check_restored(orig, &d, enc_id, strict, tag, f),
     }
 }
@@ -512,11 +525,51 @@ fn expect_rejects(h: &Handler, enc: &Document, user: &str, owner: &str, tag: &st
         let mut d = enc.clone();
         match catch(|| d.decrypt(&w)) {
             Err(p) => push(f, "no-panic", format!("{}: decrypt with a wrong password panicked: {}", tag, p)),
-            Ok(Ok(())) => push(f, &format!("{}-wrong-password-rejected{}", tag, suffix), format!("decrypt({:?}) returned Ok although the user password is {:?} and the owner password is {:?}", w, short(user), short(owner))),
+            Ok(Ok(())) => {
+                // a password colliding with the owner password only is accepted and then decrypts with a wrongly derived key: Ok is the
+                // certain outcome only if no AES data is met (otherwise Err, except when a wrong key survives unpadding); record the certain ones
+                let certain = !collides || strip_nonlatin(&w) == strip_nonlatin(user) || !enc.objects.values().any(|o| may_be_aes(h, o));
+                if certain { push(f, &format!("{}-wrong-password-rejected{}", tag, suffix), format!("decrypt({:?}) returned Ok although the user password is {:?} and the owner password is {:?}", w, short(user), short(owner))); }
+            }
             Ok(Err(_)) => {
-                if d.objects != enc.objects || d.trailer != enc.trailer { push(f, &format!("{}-wrong-password-unchanged{}", tag, suffix), format!("decrypt({:?}) returned Err but modified the document", w)); }
+                if d.objects != enc.objects || d.trailer != enc.trailer {
+                    // A colliding password is accepted by authentication and then fails later (wrong key). If the first thing it
+                    // touches is AES data the outcome depends on the random IV (a wrong key survives PKCS#5 unpadding about once in
+                    // 256 times), so the failure is recorded only when the first modified string/stream is RC4 data: no AES item
+                    // can precede it, which makes the outcome a function of the input alone.
+                    let first = enc.objects.iter().find_map(|(id, o)| d.objects.get(id).and_then(|n| first_changed(h, o, n)));
+                    if !collides || first == Some(Exp::Rc4) {
+                        push(f, &format!("{}-wrong-password-unchanged{}", tag, suffix), format!("decrypt({:?}) returned Err but modified the document", w));
+                    }
+                }
             }
         }
+    }
+}
+
+fn may_be_aes(h: &Handler, o: &Object) -> bool {
+    let aes = |e: Exp| e == Exp::Aes || e == Exp::Unspec;
+    match o {
+        Object::String(..) => aes(model_string(h)),
+        Object::Array(a) => a.iter().any(|x| may_be_aes(h, x)),
+        Object::Dictionary(d) => d.iter().any(|(_, x)| may_be_aes(h, x)),
+        Object::Stream(s) => aes(model_stream(h, s)) || s.dict.iter().any(|(_, x)| may_be_aes(h, x)),
+        _ => false,
+    }
+}
+
+/// model filter of the first string / stream content that differs between `a` (before) and `b` (after), in the order the objects are stored
+fn first_changed(h: &Handler, a: &Object, b: &Object) -> Option<Exp> {
+    match (a, b) {
+        (Object::String(x, _), Object::String(y, _)) => if x != y { Some(model_string(h)) } else { None },
+        (Object::Array(x), Object::Array(y)) => x.iter().zip(y.iter()).find_map(|(p, q)| first_changed(h, p, q)),
+        (Object::Dictionary(x), Object::Dictionary(y)) => x.iter().find_map(|(k, p)| y.get(k).ok().and_then(|q| first_changed(h, p, q))),
+        (Object::Stream(x), Object::Stream(y)) => {
+            let in_dict = x.dict.iter().filter(|(k, _)| k.as_slice() != b"Length").find_map(|(k, p)| y.dict.get(k).ok().and_then(|q| first_changed(h, p, q)));
+            if in_dict.is_some() { return in_dict; }
+            if x.content != y.content { Some(model_stream(h, x)) } else { None }
+        }
+        (p, q) => if p != q { Some(Exp::Unspec) } else { None },
     }
 }
 
@@ -587,7 +640,7 @@ fn check_case(c: &Case, state: Option<&EncryptionState>, formats: &[bool]) -> Fa
                 Err(p) => { push(&mut f, "no-panic", format!("load of the encrypted file panicked: {}", p)); continue; }
                 Ok(Err(e)) => {
                     let auto = c.user.is_empty() || c.owner.is_empty();
-                    push(&mut f, if auto { "reload-auto-load-ok" } else { "reload-load-ok" }, format!("load of the saved encrypted file failed (xref stream={}): {}", xs, e));
+                    push(&mut f, if auto { "reload-auto-restores" } else { "reload-load-ok" }, format!("load of the saved encrypted file failed (xref stream={}): {}", xs, e));
                     continue;
                 }
                 Ok(Ok(d)) => d,
